@@ -26,6 +26,9 @@ pub struct PlainStopPlan {
     pub stop_at_ns: u64,
     /// index of the first "late" client (they connect only after the stop was acknowledged with PROCESSING)
     pub first_late: usize,
+    /// the operator deactivates the listener (DeactivateListener, answered OK) right before the soft stop
+    #[serde(default)]
+    pub deactivate_first: bool,
 }
 
 pub fn generate(seed: u64, tier: Tier) -> PlainStopPlan {
@@ -74,15 +77,19 @@ pub fn generate(seed: u64, tier: Tier) -> PlainStopPlan {
         });
     }
     let backend = BackendPlan { name: "b0".into(), addr: "10.1.0.1:8000".parse().unwrap(), pace: Pace::random_budget(&mut rng, hint, 300_000_000), responses, default: RespSpec::ok(BodySpec::Cl(3)), close_on_accept: vec![], listen_from_ns: 0, listen_until_ns: 0 };
-    let http = HttpPlan {
+    let mut http = HttpPlan {
         seed, family: format!("plainstop{}", if faulty { "+buggify" } else { "" }), knobs, sched: netsim::default_sched(&mut rng, faulty), front,
         clusters: vec![ClusterPlan { id: "c0".into(), host: "c0.test".into(), backends: vec![(backend, BackendMode::Listen { delay_ns: 0 })] }], clients, sndbufs: None, settle_ns: 0, extra_frontends: vec![],
     };
-    PlainStopPlan { http, stop_at_ns: (5 + rng.below(120)) * MS, first_late }
+    let deactivate_first = rng.below(3) == 0;
+    if deactivate_first { http.family = format!("{}_deactivated_first", http.family); }
+    PlainStopPlan { http, stop_at_ns: (5 + rng.below(120)) * MS, first_late, deactivate_first }
 }
 
 pub fn run(p: &PlainStopPlan, log: bool) -> (RunReport, String) {
     let stop_at = p.stop_at_ns;
+    let deactivate_first = p.deactivate_first;
+    let front = p.http.front;
     let script: MasterScript = Box::new(move |m, reqs, _nclients| {
         // after the worker has left its loop the peers read what is still in their socket buffers
         m.push(MOp::Call(Box::new(|w, _| { w.post_exit_drain_ns = 30 * SEC; vec![] })));
@@ -90,6 +97,10 @@ pub fn run(p: &PlainStopPlan, log: bool) -> (RunReport, String) {
         m.push(MOp::Barrier);
         m.push(MOp::SetBoard("configured".into(), 1));
         m.push(MOp::Sleep(stop_at));
+        if deactivate_first {
+            m.push(MOp::SendId("DEACT".into(), sozu_command_lib::proto::command::request::RequestType::DeactivateListener(sozu_command_lib::proto::command::DeactivateListener { address: front.into(), proxy: sozu_command_lib::proto::command::ListenerType::Http.into(), to_scm: false }).into()));
+            m.push(MOp::BarrierFor(10 * SEC));
+        }
         m.push(MOp::Call(Box::new(|w, _| { w.board_set("t_stop_sent_us", (w.now / 1000) as i64); vec![] })));
         m.push(MOp::SoftStop);
         // wait for the PROCESSING notice (or the final answer) of the stop, then release the late clients
